@@ -126,8 +126,14 @@ type fsWriter struct {
 	tr *trigger
 }
 
-func (f *fsWriter) CreateDir(n desync.NodeDirectory) error { f.tr.event("fs:write"); return f.w.CreateDir(n) }
-func (f *fsWriter) CreateFile(n desync.NodeFile) error     { f.tr.event("fs:write"); return f.w.CreateFile(n) }
+func (f *fsWriter) CreateDir(n desync.NodeDirectory) error {
+	f.tr.event("fs:write")
+	return f.w.CreateDir(n)
+}
+func (f *fsWriter) CreateFile(n desync.NodeFile) error {
+	f.tr.event("fs:write")
+	return f.w.CreateFile(n)
+}
 func (f *fsWriter) CreateSymlink(n desync.NodeSymlink) error {
 	f.tr.event("fs:write")
 	return f.w.CreateSymlink(n)
